@@ -622,6 +622,52 @@ def insertBytes (x : Bytes) : List Bytes → List Bytes
 def Reader.labelNames (r : Reader) : List Bytes :=
   ((r.table.map (·.name)).filter fun n => !n.isEmpty).foldr insertBytes []
 
+/-! ### reads that return the merged postings of several values of one label name
+
+  `Reader.Postings(name, values...)`, `Reader.PostingsForLabelMatching(name, match)` and
+  `Reader.PostingsForAllLabelValues(name)` walk the postings offset table of `name` (in the real reader
+  from a sampled in-memory entry, every `symbolFactor`-th value plus the last one; here, as for
+  `Reader.postings`/`Reader.labelValues`, over the whole table), decode the list of every selected
+  value and hand the lists to `index.Merge`. -/
+
+/-- `index.Merge` followed by `ExpandPostings`: no list → nothing, one list → that list as it is,
+    several → their sorted union without duplicates (`mergedPostings.cur` starts at 0, so a
+    reference 0 would be dropped as a "duplicate"; series references of a V2 index are ≥ 1). -/
+def mergeIds : List (List Nat) → List Nat
+  | [] => []
+  | [l] => l
+  | ls => (sortUniq (ls.flatMap id)).filter (· ≠ 0)
+
+/-- the lists of the given values of `name`, the first error wins -/
+def Reader.postingsOfValues (crc : Crc) (r : Reader) (name : Bytes) : List Bytes → Except Err (List (List Nat))
+  | [] => .ok []
+  | v :: vs =>
+    match r.postings crc name v with
+    | .error e => .error e
+    | .ok l =>
+      match r.postingsOfValues crc name vs with
+      | .error e => .error e
+      | .ok ls => .ok (l :: ls)
+
+/-- `Reader.PostingsForLabelMatching(name, match)` expanded: the values of `name` in table order,
+    those accepted by `match`, their lists merged. -/
+def Reader.postingsMatching (crc : Crc) (r : Reader) (name : Bytes) (pred : Bytes → Bool) : Except Err (List Nat) :=
+  match r.postingsOfValues crc name ((r.labelValues name).filter pred) with
+  | .error e => .error e
+  | .ok ls => .ok (mergeIds ls)
+
+/-- `Reader.PostingsForAllLabelValues(name)`: `postingsForLabelMatching` with `match == nil`. -/
+def Reader.postingsAll (crc : Crc) (r : Reader) (name : Bytes) : Except Err (List Nat) :=
+  r.postingsMatching crc name fun _ => true
+
+/-- `Reader.Postings(name, values...)` expanded: values that are not in the table of `name` contribute
+    nothing (skipped before the first / after the last entry, stepped over in between), a value given
+    twice is read twice; the real code sorts `values` first, which `mergeIds` does not depend on. -/
+def Reader.postingsMulti (crc : Crc) (r : Reader) (name : Bytes) (values : List Bytes) : Except Err (List Nat) :=
+  match r.postingsOfValues crc name (values.filter fun v => (r.labelValues name).contains v) with
+  | .error e => .error e
+  | .ok ls => .ok (mergeIds ls)
+
 /-! ## Hypothesis on the checksum used by the damage theorems -/
 
 /-- A single changed byte changes the checksum (true of CRC32: any burst error of at most 32 bits
